@@ -46,10 +46,12 @@ def main():
         try:
             shutil.copy('/tmp/seedwork/zt_boot.py', wt) if os.path.exists('/tmp/seedwork/zt_boot.py') \
                 else shutil.copy(os.path.join(HERE, 'seeded', 'zt_boot.py'), wt)
-            shutil.copytree(sd, os.path.join(wt, 'SEEDED'))
-            r0 = sh('/venv/bin/python zt_boot.py SEEDED/demo.py', cwd=wt, timeout=600)
-            ap_ = sh('git apply SEEDED/patch.diff', cwd=wt)
-            r1 = sh('/venv/bin/python zt_boot.py SEEDED/demo.py', cwd=wt, timeout=600)
+            # round-3 demos locate the worktree root from SEEDED/<letter>/demo.py
+            sub = 'SEEDED/' + meta['letter'] if meta.get('layout') == 'nested' else 'SEEDED'
+            shutil.copytree(sd, os.path.join(wt, sub))
+            r0 = sh('/venv/bin/python zt_boot.py %s/demo.py' % sub, cwd=wt, timeout=600)
+            ap_ = sh('git apply %s/patch.diff' % sub, cwd=wt)
+            r1 = sh('/venv/bin/python zt_boot.py %s/demo.py' % sub, cwd=wt, timeout=600)
             result['demo_without'] = (r0.returncode, (r0.stdout + r0.stderr)[-200:])
             result['demo_with'] = (r1.returncode, (r1.stdout + r1.stderr)[-300:])
             result['patch_applies'] = ap_.returncode == 0
